@@ -409,7 +409,7 @@ def gen(seed, charsigned, n, nargs=4, prefix='f'):
 #   `return e;` (ret conv(e,RET))               exprassign to the return type
 #   `for (init; c; step) body`  (for INIT COND STEP BODY), a missing clause is (skip) / (none)
 STMT_KINDS = ['decl', 'decl-init', 'set', 'opset', 'inc', 'dec', 'expr', 'ret', 'block', 'if', 'ifelse', 'while',
-              'do', 'for', 'break', 'continue', 'skip', 'switch', 'case', 'default', 'call', 'adecl', 'aload', 'astore', 'idx-expr', 'call-expr']
+              'do', 'for', 'break', 'continue', 'skip', 'switch', 'case', 'default', 'call', 'adecl', 'aload', 'astore', 'idx-expr', 'call-expr', 'pload', 'callp']
 OPSET = ['mul', 'div', 'mod', 'add', 'sub', 'shl', 'shr', 'and', 'or', 'xor']
 # which jump statements may be generated: 0 none, 1 in a loop, 2 in a switch outside any loop (the `continue` of a
 # switch inside a loop belongs to the loop), 3 in a switch inside a loop
@@ -461,6 +461,8 @@ class Gen2:
         self.hist = {}
         self.acc = None                       # an unsigned accumulator updated in loop bodies and folded into the result
         self.callees = []                     # stage D: (name, ret, ptys, firstarg) of the functions that may be called
+        self.ptrs = {}                        # stage E2: read-only array parameters: variable -> (element type, length)
+        self.pcallees = []                    # functions with array parameters: (name, ret, aps, ptys)
         self.arrays = True                    # stage E switch
         self.impure_ok = True                 # array reads and calls inside the expressions of statements
         self.arrs = {}                        # stage E: array variable -> number of elements; (k, j) in self.init:
@@ -513,9 +515,10 @@ class Gen2:
 
     def expr1(self, scope, depth, risky):
         r = self.rng
-        ok = [k for k in scope if k in self.init and k not in self.arrs]
+        ok = [k for k in scope if k in self.init and k not in self.arrs and k not in self.ptrs]
         if r.random() < risky:
-            ok = [k for k in scope if k not in self.arrs]   # may read an indeterminate object: the C semantics says `ub`
+            # may read an indeterminate object: the C semantics says `ub`
+            ok = [k for k in scope if k not in self.arrs and k not in self.ptrs]
         self.g.vars = ok
         if not ok:
             # nothing to read: a plain constant (constant-only operator trees are mostly undefined or folded natively)
@@ -532,7 +535,15 @@ class Gen2:
         return len(self.vtys) - 1
 
     def assignable(self, scope):
-        return [k for k in scope if k not in self.ro and k not in self.arrs]
+        return [k for k in scope if k not in self.ro and k not in self.arrs and k not in self.ptrs]
+
+    def params_sx(self, np_):
+        """the parameter list of the `fn2` line: `T` or `(ptr T W)` for a read-only array parameter"""
+        return ' '.join('(ptr %s %d)' % self.ptrs[k] if k in self.ptrs else self.vtys[k] for k in range(np_))
+
+    def params_c(self, np_):
+        return ', '.join(('const %s p%d[%d]' % (CNAME[self.ptrs[k][0]], k, self.ptrs[k][1])) if k in self.ptrs
+                         else '%s p%d' % (CNAME[self.vtys[k]], k) for k in range(np_)) or 'void'
 
     def locals_sx(self, np_):
         """the list of local types of the `fn2` line: `T` or `(T N)` for an array"""
@@ -644,12 +655,90 @@ class Gen2:
         return [('%s(%s);' % (name, ', '.join(csrc)),
                  '(call (none) %s %s%s)' % (ret, name, ''.join(' ' + a for a in ctree)))]
 
+    def pload(self, scope):
+        """stage E2: `x = p[i];` through a read-only array parameter"""
+        r = self.rng
+        k = r.choice(sorted(self.ptrs))
+        t, w = self.ptrs[k]
+        av = self.assignable(scope)
+        pre = []
+        if not av or r.random() < 0.25:
+            dt = r.choice(TYS)
+            d = self.newvar(dt)
+            scope.append(d)
+            self.count('decl')
+            pre = [('%s p%d;' % (CNAME[dt], d), '(decl %d %s)' % (d, dt))]
+        else:
+            d = r.choice(av)
+            dt = self.vtys[d]
+        x = r.random()
+        if x < 0.5:
+            j = r.randrange(0, w)
+            isrc = ('K', j, str(j), True, '')
+        elif x < 0.95:
+            src, _ = self.expr(scope, 1)
+            isrc = ('B', 'mod', ('C', r.choice(['u', 'ul', 'us', 'uc']), src), ('K', w, '%du' % w, True, 'u'))
+        else:
+            isrc, _ = self.expr(scope, 1)          # anything: mostly out of bounds
+        self.init.add(d)
+        self.count('pload')
+        return pre + [('p%d = p%d[%s];' % (d, k, ctext(isrc)),
+                       '(pload %d %s %d %s %d %s)' % (d, dt, k, t, w, sx(parse(isrc, self.vtys))))]
+
+    def callp(self, scope):
+        """stage E2: a call passing local arrays (all of whose elements hold a value) to read-only array parameters"""
+        r = self.rng
+        name, ret, aps, ptys = r.choice(self.pcallees)
+        pre = []
+        picks = []
+        for (t, w) in aps:
+            fit = [k for k in scope if k in self.arrs and self.vtys[k] == t and self.arrs[k] >= w
+                   and all((k, j) in self.init for j in range(self.arrs[k]))]
+            if fit and r.random() < 0.7:
+                picks.append(r.choice(fit))
+                continue
+            # a fresh array of the element type, filled completely
+            n = w + r.choice([0, 0, 1, 2])
+            k = self.newvar(t)
+            self.arrs[k] = n
+            scope.append(k)
+            self.count('adecl')
+            pre.append(('%s p%d[%d];' % (CNAME[t], k, n), '(adecl %d %s %d)' % (k, t, n)))
+            for j in range(n):
+                src, e = self.expr(scope, 1, impure=True)
+                self.init.add((k, j))
+                self.count('astore')
+                pre.append(('p%d[%d] = %s;' % (k, j, ctext(src)),
+                            '(astore %d %s %d (c i %d) %s)' % (k, t, n, j, sx(conv(e, t)))))
+            picks.append(k)
+        csrc = ['p%d' % k for k in picks]
+        ctree = []
+        for pt in ptys:
+            src, e = self.expr(scope, 1)
+            csrc.append(ctext(src))
+            ctree.append(sx(conv(e, pt)))
+        pa = ' '.join('(%d %s %d)' % (k, self.vtys[k], self.arrs[k]) for k in picks)
+        self.count('callp')
+        av = self.assignable(scope)
+        if av and r.random() < 0.85:
+            k = r.choice(av)
+            t = self.vtys[k]
+            self.init.add(k)
+            return pre + [('p%d = %s(%s);' % (k, name, ', '.join(csrc)),
+                           '(callp (%d %s) %s %s (%s)%s)' % (k, t, ret, name, pa, ''.join(' ' + a for a in ctree)))]
+        return pre + [('%s(%s);' % (name, ', '.join(csrc)),
+                       '(callp (none) %s %s (%s)%s)' % (ret, name, pa, ''.join(' ' + a for a in ctree)))]
+
     def simple(self, scope):
         """one statement without sub-statements"""
         r = self.rng
+        if self.ptrs and r.random() < 0.3:
+            return self.pload(scope)
+        if self.pcallees and r.random() < 0.35:
+            return self.callp(scope)
         if self.callees and r.random() < 0.25:
             return self.call(scope)
-        if self.arrays and r.random() < (0.22 if any(k in self.arrs for k in scope) else 0.07):
+        if self.arrays and r.random() < (0.22 if any(k in self.arrs for k in scope) else (0.25 if self.pcallees else 0.07)):
             return self.array(scope)
         x = r.random()
         av = self.assignable(scope)
@@ -1068,9 +1157,17 @@ def gen3(seed, charsigned, n, nargs=4, prefix='h'):
             ptys = [rng.choice(TYS) for _ in range(np_)]
             if rec:
                 ptys[0] = rng.choice(['i', 'l', 's', 'sc'])
+            aps = []
+            if not rec and rng.random() < 0.4:
+                aps = [(rng.choice(TYS), rng.choice([1, 2, 2, 3, 4])) for _ in range(rng.choice([1, 1, 2]))]
+            ptys = ['ul'] * len(aps) + ptys
+            np_ = len(ptys)
             ret = rng.choice(TYS)
             g = Gen2(rng, ptys, ret, 'C')
-            g.callees = [(d[0], d[1], d[2], None) for d in defined]
+            for k, ap in enumerate(aps):
+                g.ptrs[k] = ap
+            g.callees = [(d[0], d[1], d[2], None) for d in defined if not d[4]]
+            g.pcallees = [(d[0], d[1], d[4], d[2][len(d[4]):]) for d in defined if d[4]]
             scope = list(range(np_))
             pre = []
             if rec:
@@ -1087,13 +1184,13 @@ def gen3(seed, charsigned, n, nargs=4, prefix='h'):
             items = pre + items
             if not term:
                 items.append(g.ret(scope))
-            params = ', '.join('%s p%d' % (CNAME[t], i) for i, t in enumerate(ptys)) or 'void'
-            c = '%s %s(%s) { %s }' % (CNAME[ret], name, params, ' '.join(x for x, _ in items))
-            s = '(fn2 %s %s (%s) (%s) (block %s))' % (name, ret, ' '.join(ptys), g.locals_sx(np_),
+            c = '%s %s(%s) { %s }' % (CNAME[ret], name, g.params_c(np_), ' '.join(x for x, _ in items))
+            s = '(fn2 %s %s (%s) (%s) (block %s))' % (name, ret, g.params_sx(np_), g.locals_sx(np_),
                                                      ' '.join(t for _, t in items))
-            defined.append((name, ret, ptys, s))
+            defined.append((name, ret, ptys, s, aps))
             evalsx = '(prog %s)' % ' '.join(d[3] for d in defined)
-            res.append((c, s, name, _args(rng, ptys, nargs), g.hist, evalsx))
+            # a function with array parameters is exercised through its callers only
+            res.append((c, s, name, [] if aps else _args(rng, ptys, nargs), g.hist, evalsx))
     return res
 
 
